@@ -50,6 +50,52 @@ def stream(ctx, n, so, to, tts, extra, aged):
     ctx.sample(dict(stream=s.label, first_lines=s.lines[:8]))
 
 
+def missing_stream(ctx, n, so, tts):
+    """the target does NOT declare one of the source's variables (and declares a foreign one,
+    so that every level number of the source exists in the target): a function that depends
+    on the missing variable cannot be copied -- the call must refuse, never return a
+    function of other variables; the others copy as usual"""
+    rng = ctx.rng
+    miss = rng.randrange(n)
+    tids = [v for v in range(n) if v != miss] + [n]
+    tl = list(range(n))
+    rng.shuffle(tl)
+    s = ctx.session(f'copy n={n} src={so} target lacks v{miss}, declares {dict(zip(tids, tl))}')
+    src = Mgr(ctx, None, n, so, m=0, session=s)
+    s.op(1, 'new', dict(zip(tids, tl)))
+    tb = s.impl.mgr[1]
+    for t in tts:
+        u = src.build(t)
+        if u is None:
+            continue
+        for sign in (1, -1):
+            r = s.op(1, 'copy', 0, sign * u)
+            tu = t if sign == 1 else T.neg(t, n)
+            dep = T.depends(t, n, miss)
+            ctx.case((n, so, 'missing', miss, tuple(tl), t, sign), dep)
+            ctx.count('copy-missing' + (':dependent' if dep else ''))
+            if dep:
+                if r is not None:
+                    ctx.violation('C11:wrong-function',
+                                  f'copy of {tu:#x}, which depends on v{miss}, into a manager without v{miss} '
+                                  f'returned {r} instead of refusing', src.case())
+            else:
+                if r is None:
+                    ctx.violation('C11:rejected', f'copy of {tu:#x} (independent of the missing v{miss}) refused',
+                                  src.case())
+                else:
+                    # evaluate by name over the source's names; the missing one is irrelevant
+                    names = [vname(i) if i != miss else vname(n) for i in range(n)]
+                    got = oracle.tt_fast(tb, r, names)
+                    if got != tu:
+                        ctx.violation('C11:wrong-function',
+                                      f'copy of {tu:#x}: target denotes {got:#x}', src.case())
+    bad = oracle.check_table(tb)
+    if bad:
+        ctx.violation('C11:target-table', f'target not canonical: {bad[:2]}', src.case())
+    ctx.sample(dict(stream=s.label, first_lines=s.lines[:8]))
+
+
 def fn_stream(ctx, n, so, to, tts, extra, reordering):
     """dd._copy.copy_bdds_from through the Function interface (dd.autoref source and target):
     one memo for several roots (shared and complemented roots, a root given twice, a constant),
@@ -164,6 +210,9 @@ def run(ctx):
         for so in gen.orders(n):
             for to in gen.orders(n):
                 stream(ctx, n, so, to, range(1 << (1 << n)), 0, False)
+    for _ in range(6 if q else 60):
+        n_ = rng.choice([3, 4])
+        missing_stream(ctx, n_, rng.choice(gen.orders(n_)), [rng.getrandbits(1 << n_) for _ in range(6)])
     o3 = gen.orders(3)
     for so in (o3 if not q else rng.sample(o3, 3)):
         for to in o3:
